@@ -23,7 +23,8 @@ def obligations(tier):
     obs = []
 
     def add(name, fn, builder, t=3000, **params):
-        obs.append({"name": name, "harness": H + fn, "builder": H + builder, "params": params, "timeout_s": t, "query_timeout_ms": 300000 if tier == "quick" else 900000})
+        obs.append({"name": name, "harness": H + fn, "builder": H + builder, "params": params, "timeout_s": t, "rank": True,
+                    "query_timeout_ms": 300000 if tier == "quick" else 900000})
     sets = [[1], [2], [1, 1], [1, 2], [2, 2]]
     if tier != "quick":
         sets.append([1, 1, 1])
